@@ -58,6 +58,9 @@ static Reg r_fwd("utmfwd", [](const Args& a) {
     return;
   }
   emit(std::to_string(zone) + " " + b(northp) + " " + hx(x) + " " + hx(y) + " " + hx(g) + " " + hx(k));
+  // the INVALID conventions: a NaN or infinite coordinate (no explicit zone requested) or an INVALID request gives zone INVALID and NaN results; nothing else does
+  if ((sz == -4 || ((!std::isfinite(lat) || !std::isfinite(lon)) && sz < 0)) != (zone == -4)) bad("documented-invalid", "UTMUPS::Forward: zone is INVALID for valid input, or not INVALID for NaN input / an INVALID request");
+  if (zone == -4 && !(std::isnan(x) && std::isnan(y) && std::isnan(g) && std::isnan(k))) bad("documented-invalid", "UTMUPS::Forward: INVALID zone with non-NaN results");
   if (zone < 0 || !std::isfinite(lat) || !std::isfinite(lon) || std::isnan(x)) return;
   {
     // documented facts about the result, from the header's numbers alone
@@ -108,6 +111,7 @@ static Reg r_rev("utmrev", [](const Args& a) {
     return;
   }
   emit(hx(lat) + " " + hx(lon) + " " + hx(g) + " " + hx(k));
+  if ((zone == -4 || std::isnan(x) || std::isnan(y)) != (std::isnan(lat) && std::isnan(lon) && std::isnan(g) && std::isnan(k))) bad("documented-invalid", "UTMUPS::Reverse: NaN results exactly for an INVALID zone or NaN coordinates");
   if (std::isnan(lat) || zone < 0) return;
   // closure Forward(Reverse) = id (5 nm x4) for points within the ordinary domain
   int z2; bool n2; double x2, y2, g2, k2;
